@@ -203,28 +203,29 @@ fn pop_call_info_for_line(
     state: &mut HashMap<String, StateValue>,
 ) -> Option<CallInfo> {
     let line_context_name = get_line_context_name(state);
-    let while_state = get_core_sub_state_for_command(state, WHILE_STATE_KEY.to_string());
-    let call_info_stack = get_list(CALL_STACK_STATE_KEY.to_string(), while_state);
 
-    match call_info_stack.pop() {
-        Some(state_value) => match state_value {
-            StateValue::SubState(mut call_info_state) => {
-                match deserialize_call_info(&mut call_info_state) {
-                    Some(call_info) => {
-                        if call_info.meta_info.end == line
-                            && call_info.line_context_name == line_context_name
-                        {
-                            Some(call_info)
-                        } else {
-                            pop_call_info_for_line(line, state)
+    loop {
+        let sub_state = get_core_sub_state_for_command(state, WHILE_STATE_KEY.to_string());
+        let call_info_stack = get_list(CALL_STACK_STATE_KEY.to_string(), sub_state);
+
+        match call_info_stack.pop() {
+            Some(state_value) => match state_value {
+                StateValue::SubState(mut call_info_state) => {
+                    match deserialize_call_info(&mut call_info_state) {
+                        Some(call_info) => {
+                            if call_info.meta_info.end == line
+                                && call_info.line_context_name == line_context_name
+                            {
+                                return Some(call_info);
+                            }
                         }
+                        None => return None,
                     }
-                    None => None,
                 }
-            }
-            _ => pop_call_info_for_line(line, state),
-        },
-        None => None,
+                _ => (),
+            },
+            None => return None,
+        }
     }
 }
 
